@@ -17,8 +17,8 @@ tvars == <<vars, l, other, nres>>
 
 ToSet(q) == {q[i] : i \in DOMAIN q}
 PartOf(j) == [replicas |-> ToSet(j.replicas), isr |-> ToSet(j.isr), leader |-> j.leader, lepoch |-> j.lepoch,
-              epoch |-> j.epoch, paused |-> j.paused, ppaused |-> j.ppaused, ro |-> j.ro, roeff |-> j.roeff, rec |-> j.rec]
-StreamsOf(js) == [s \in DOMAIN js |-> [tomb |-> js[s].tomb, parts |-> [i \in DOMAIN js[s].parts |-> PartOf(js[s].parts[i])]]]
+              epoch |-> j.epoch, paused |-> j.paused, ppaused |-> j.ppaused, ro |-> j.ro, roeff |-> j.roeff, rec |-> j.rec, minisr |-> j.minisr]
+StreamsOf(js) == [s \in DOMAIN js |-> [tomb |-> js[s].tomb, subj |-> js[s].subj, cfg |-> js[s].cfg, ts |-> js[s].ts, parts |-> [i \in DOMAIN js[s].parts |-> PartOf(js[s].parts[i])]]]
 ProtoOf(j) == [replicas |-> ToSet(j.replicas), isr |-> ToSet(j.isr), leader |-> j.leader, lepoch |-> j.lepoch,
                epoch |-> j.epoch, ppaused |-> j.ppaused, ro |-> j.ro]
 ProtosOf(js) == [s \in DOMAIN js |-> [i \in DOMAIN js[s] |-> ProtoOf(js[s][i])]]
@@ -32,11 +32,11 @@ GroupsOf(js) == [g \in GroupIds |-> GroupOf(js[g])]
 SnapGroupsOf(js) == [g \in DOMAIN js |-> [members |-> [i \in DOMAIN js[g].members |-> [c |-> js[g].members[i].c, S |-> ToSet(js[g].members[i].S)]],
                                            epoch |-> js[g].epoch, coord |-> js[g].coord]]
 RefOf(j) == IF ~j.has THEN NoRef
-            ELSE [has |-> TRUE, idx |-> j.idx, live |-> ToSet(j.live), frozen |-> ProtosOf(j.frozen), groups |-> SnapGroupsOf(j.groups)]
+            ELSE [has |-> TRUE, idx |-> j.idx, live |-> ToSet(j.live), frozen |-> ProtosOf(j.frozen), heads |-> j.heads, groups |-> SnapGroupsOf(j.groups)]
 SnapOf(j) == IF ~j.has THEN NoSnap
-             ELSE [has |-> TRUE, idx |-> j.idx, streams |-> ProtosOf(j.streams), groups |-> SnapGroupsOf(j.groups)]
+             ELSE [has |-> TRUE, idx |-> j.idx, streams |-> ProtosOf(j.streams), heads |-> j.heads, groups |-> SnapGroupsOf(j.groups)]
 OpOf(o) ==
-  CASE o.op = "CreateStream" -> [op |-> o.op, s |-> o.s, n |-> o.n, R |-> ToSet(o.R), ldr |-> o.ldr]
+  CASE o.op = "CreateStream" -> [op |-> o.op, s |-> o.s, n |-> o.n, R |-> ToSet(o.R), ldr |-> o.ldr, subj |-> o.subj, cfg |-> o.cfg, ts |-> o.ts]
     [] o.op = "Pause" -> [op |-> o.op, s |-> o.s, pids |-> ToSet(o.pids), resumeAll |-> o.resumeAll]
     [] o.op = "Resume" -> [op |-> o.op, s |-> o.s, pids |-> ToSet(o.pids)]
     [] o.op = "SetReadonly" -> [op |-> o.op, s |-> o.s, pids |-> ToSet(o.pids), b |-> o.b]
